@@ -586,3 +586,105 @@ def alias_inplace_rule(prog, run, rule, quals):
                 break
     if not n:
         run.ob(rule, quals[0] if quals else "-", "in-place operations on shared locals", True, "no in-place operation on a local that is also known by another name")
+
+
+REMOVERS = ("pop", "popitem", "clear", "remove")
+
+
+def _loop_parts(fn_node):
+    """[(loop node, names bound per iteration, [nodes evaluated once per iteration])] for the for-loops and comprehensions of a function"""
+    out = []
+    for n in ast.walk(fn_node):
+        if isinstance(n, ast.For):
+            bound = {x.id for x in ast.walk(n.target) if isinstance(x, ast.Name)}
+            bound |= {x.id for s_ in n.body for x in ast.walk(s_) if isinstance(x, ast.Name) and isinstance(x.ctx, ast.Store)}
+            out.append((n, bound, list(n.body)))
+        elif isinstance(n, (ast.ListComp, ast.SetComp, ast.GeneratorExp, ast.DictComp)):
+            bound = {x.id for g in n.generators for x in ast.walk(g.target) if isinstance(x, ast.Name)}
+            parts = ([n.key, n.value] if isinstance(n, ast.DictComp) else [n.elt]) + [c for g in n.generators for c in g.ifs] + [g.iter for g in n.generators[1:]]
+            out.append((n, bound, parts))
+    return out
+
+
+def _is_bound(r, call):
+    """the call fills the callee's parameters from the second one on (a method called on an object; not a static method)"""
+    static = any(astq.src(d).split(".")[-1] == "staticmethod" for d in r.node.decorator_list)
+    return r.cls is not None and isinstance(call.func, ast.Attribute) and not static
+
+
+def _removals(prog, fi, depth=2):
+    """{parameter name: description} of the parameters of fi from which entries are taken out in place (pop / popitem / clear / remove /
+    del p[..]) with a key that does not depend on the other arguments, directly or in a helper the parameter is handed to"""
+    pos = [a.arg for a in fi.node.args.posonlyargs + fi.node.args.args + fi.node.args.kwonlyargs]
+    out = {}
+    for n in ast.walk(fi.node):
+        if isinstance(n, ast.Call) and isinstance(n.func, ast.Attribute) and n.func.attr in REMOVERS and isinstance(n.func.value, ast.Name) and n.func.value.id in pos:
+            keynames = {x.id for a in n.args[:1] for x in ast.walk(a) if isinstance(x, ast.Name)}
+            if not (keynames & (set(pos) - {n.func.value.id})):
+                out.setdefault(n.func.value.id, f"`{astq.src(n, 40)}` in {fi.qual.split('.')[-1]}")
+        elif isinstance(n, ast.Delete):
+            for t in n.targets:
+                if isinstance(t, ast.Subscript) and isinstance(t.value, ast.Name) and t.value.id in pos:
+                    out.setdefault(t.value.id, f"`del {astq.src(t, 30)}` in {fi.qual.split('.')[-1]}")
+        elif isinstance(n, ast.Call) and depth > 0:
+            try:
+                r = prog.resolve_call(fi, n)
+            except Exception:
+                r = None
+            if r is not None and isinstance(getattr(r, "node", None), (ast.FunctionDef, ast.AsyncFunctionDef)) and r.node is not fi.node:
+                sub = _removals(prog, r, depth - 1)
+                if sub:
+                    try:
+                        m_, errs = astq.bind_args(r.node, n, bound=_is_bound(r, n))
+                    except Exception:
+                        continue
+                    for p_, a_ in m_.items():
+                        if p_ in sub and isinstance(a_, ast.Name) and a_.id in pos:
+                            out.setdefault(a_.id, sub[p_])
+    return out
+
+
+def consumed_in_loop_rule(prog, run, rule, quals):
+    """a dictionary / list that is the same object in every iteration of a loop (or comprehension) and from which the iteration takes entries
+    OUT (pop with a fixed key, popitem, clear - itself or in a helper it is handed to) is complete for the first iteration only: the
+    later ones find the defaults.  Reported when the key does not depend on the iteration."""
+    from .program import rel
+    n = 0
+    for q in quals:
+        fi = prog.functions.get(q)
+        if fi is None:
+            continue
+        f = rel(prog.mods[fi.mod].path)
+        for loop, bound, parts in _loop_parts(fi.node):
+            for part in parts:
+                for c in ast.walk(part):
+                    if not isinstance(c, ast.Call):
+                        continue
+                    hit = None
+                    if isinstance(c.func, ast.Attribute) and c.func.attr in REMOVERS and isinstance(c.func.value, ast.Name) and c.func.value.id not in bound:
+                        keynames = {x.id for a in c.args[:1] for x in ast.walk(a) if isinstance(x, ast.Name)}
+                        if not (keynames & bound) and (c.func.attr != "pop" or c.args):
+                            hit = (c.func.value.id, f"`{astq.src(c, 40)}`")
+                    else:
+                        try:
+                            r = prog.resolve_call(fi, c)
+                        except Exception:
+                            r = None
+                        if r is not None and isinstance(getattr(r, "node", None), (ast.FunctionDef, ast.AsyncFunctionDef)) and r.node is not fi.node:
+                            sub = _removals(prog, r)
+                            if sub:
+                                try:
+                                    m_, errs = astq.bind_args(r.node, c, bound=_is_bound(r, c))
+                                except Exception:
+                                    m_ = {}
+                                for p_, a_ in m_.items():
+                                    if p_ in sub and isinstance(a_, ast.Name) and a_.id not in bound:
+                                        # the other arguments of the call must not make the key iteration dependent: keys come from the helper
+                                        hit = (a_.id, f"`{astq.src(c, 40)}` ({sub[p_]})")
+                    if hit:
+                        n += 1
+                        run.ob(rule, fi.qual, f"`{hit[0]}` is complete in every iteration", False,
+                               f"{hit[1]} takes entries out of `{hit[0]}`, which is one object for all iterations of `{astq.src(loop, 50)}`: only the first iteration sees what the caller put in",
+                               witness=f"{hit[0]}:{astq.src(c, 30)}", file=f, node=c)
+    if not n:
+        run.ob(rule, quals[0] if quals else "-", "per-iteration removals from a loop-invariant container", True, "no iteration takes entries out of a container shared by all iterations")
